@@ -15,6 +15,7 @@ import Mfi.Lemmas.SkelL
 import Mfi.Lemmas.AccL
 import Mfi.Props.C09
 import Mfi.Gen.TxLists
+import Mfi.Lemmas.ConstL
 
 namespace Mfi.Props.C07
 open Mfi Mfi.Fx Mfi.Bank Mfi.Gen
@@ -288,6 +289,26 @@ theorem disabled_only_by_bankruptcy_or_transfer :
       (w.1 = .fn_lending_pool_handle_bankruptcy ∨ w.1 = .fn_transfer_to_new_account ∨ w.1 = .fn_transfer_to_new_account_pda) := by
   decide
 
+/-- **the insurance that pays is the bank's own**: in the bankruptcy instruction the insurance vault, the
+    liquidity vault that receives the cover and the insurance authority that signs are all program-derived
+    addresses checked by `seeds` over the bank key: no look-alike token account can stand in for any of them,
+    so "what the insurance holds" is what the BANK's insurance holds. -/
+theorem bankruptcy_vaults_are_the_banks :
+    ∀ f ∈ Acc.fields .LendingPoolHandleBankruptcy,
+      (f.name = .f_insurance_vault ∨ f.name = .f_liquidity_vault ∨ f.name = .f_insurance_vault_authority) →
+      f.hasSeeds = true := by
+  decide
+
+/-- (non-vacuity) all three seats exist in the struct -/
+example : (Acc.fields .LendingPoolHandleBankruptcy).any (·.name = .f_insurance_vault) = true ∧
+    (Acc.fields .LendingPoolHandleBankruptcy).any (·.name = .f_liquidity_vault) = true ∧
+    (Acc.fields .LendingPoolHandleBankruptcy).any (·.name = .f_insurance_vault_authority) = true := by decide
+
 end tables
+
+/-- the equity valuation of the bankruptcy assessment divides by rows of the scaling table: that table is exactly the powers of ten 10^0 .. 10^23 as I80F48 (regenerated from the real
+    constants on every run; the model computes its own powers of ten and is diffed against the real functions across
+    ALL 24 decimals) -/
+theorem scaling_table_is_powers_of_ten : Mfi.Gen.EXP_10_I80F48 = Mfi.Fx.POW10FX := Mfi.ConstL.exp10_table_exact
 
 end Mfi.Props.C07
